@@ -471,14 +471,16 @@ def collapse_one(
         # First extract a rotated angles value, handling the special "pitch" and "yaw" keys.
         angles = Angle.from_str(inst.fixup.substitute(new_ent['angles'], ''))
         if 'pitch' in new_ent:
-            angles.pitch = srctools.conv_float(inst.fixup.substitute(new_ent['pitch'], ''))
             try:
                 kv = ent_type.kv['pitch']
             except KeyError:
                 pass
             else:
+                # Only if it really is the pitch of the angles, not e.g. the pitch of a sound.
                 if kv.type is ValueTypes.ANGLE_NEG_PITCH:
-                    angles.pitch = -angles.pitch
+                    angles.pitch = -srctools.conv_float(inst.fixup.substitute(new_ent['pitch'], ''))
+                elif kv.type is ValueTypes.EXT_ANGLE_PITCH:
+                    angles.pitch = srctools.conv_float(inst.fixup.substitute(new_ent['pitch'], ''))
         if 'yaw' in new_ent:
             angles.yaw = srctools.conv_float(inst.fixup.substitute(new_ent['yaw'], ''))
         angles @= orient
